@@ -27,17 +27,21 @@ func authFilter(init []string, ops []string) func(hist []string) []string {
 					registered = p[1]
 				}
 			case "auth":
-				if registered == "" || p[4] != registered || len(p) > 5 || banned[p[1]] {
+				if registered == "" || p[4] != registered || (len(p) > 5 && p[5] == "flip") || banned[p[1]] {
 					continue
 				}
+				variant := p[2] + "/" + p[3]
+				if len(p) > 5 {
+					variant += "/" + p[5]
+				}
 				if k, ok := live[p[1]]; ok {
-					if k != p[2]+"/"+p[3] {
+					if k != variant {
 						delete(live, p[1])
 						banned[p[1]] = true
 					}
 					continue
 				}
-				live[p[1]] = p[2] + "/" + p[3]
+				live[p[1]] = variant
 			}
 		}
 		var out []string
@@ -81,6 +85,7 @@ func init() {
 		ops := []string{
 			"auth:1:kA:1000:G1",      // a1
 			"auth:1:kA:2000:G1",      // a1': capacity differs
+			"auth:1:kA:1000:G1:debt", // a1*: differs in the debt field only
 			"auth:1:kB:1000:G1",      // a1'': carries device 2's key
 			"auth:1:kF:1000:G1",      // a1''': fresh key
 			"auth:2:kB:1000:G1",      // a2
